@@ -86,6 +86,9 @@ func toGoptunaSampler(algorithm *api_v1_beta1.AlgorithmSpec) (goptuna.Sampler, g
 				if err != nil {
 					return nil, nil, err
 				}
+				if n < 1 {
+					return nil, nil, fmt.Errorf("n_ei_candidates must be at least 1: %d", n)
+				}
 				opts = append(opts, tpe.SamplerOptionNumberOfEICandidates(n))
 			}
 		}
